@@ -823,10 +823,17 @@ func (x *Exec) fromNative(o reflect.Value, t types.Type) Value {
 // Eisel-Lemire code symbolically is out of reach, so the result is an uninterpreted float of the bytes
 // (sound for no-panic and differential properties; never equal to a particular value).
 func (x *Exec) parseFloatSym(s Str) Value {
-	x.stubsHit["strconv.ParseFloat (symbolic input: arbitrary result)"] = true
-	ok := x.freshVar("parsefloat_ok", 0)
+	x.stubsHit["strconv.ParseFloat (symbolic input: uninterpreted function of the bytes, so equal texts parse alike)"] = true
+	ts := make([]*Term, 0, s.Len())
+	for _, b := range strBytes(s) {
+		if b.Atom != 0 {
+			unsupported("ParseFloat of an atom string")
+		}
+		ts = append(ts, x.term(b))
+	}
+	ok := x.tt.UF(fmt.Sprintf("pf_ok%d", len(ts)), 0, ts...)
 	if x.branch(ok) {
-		v := x.freshVar("parsefloat", 64)
+		v := x.tt.UF(fmt.Sprintf("pf_bits%d", len(ts)), 64, ts...)
 		return ret2(Float{S: x.tt.FFromBits(v)}, Iface{})
 	}
 	return ret2(Float{}, x.mkError("strconv.ParseFloat: parsing: invalid syntax"))
